@@ -214,6 +214,11 @@ fn run_once(cmd: &mut Command, timeout: Duration) -> RunOut {
     let start = Instant::now();
     cmd.stdin(Stdio::null()).stdout(Stdio::piped()).stderr(Stdio::piped());
     cmd.env("RUST_BACKTRACE", "0");
+    // ragc writes temporary files (getset to stdout goes through one and leaves it behind on an
+    // error path): keep them inside the run's scratch directory, which the driver removes
+    if let Ok(d) = std::env::var("VERIF_TMPDIR") {
+        cmd.env("TMPDIR", d);
+    }
     // safety net: no child may take more than 24 GiB of address space (a runaway allocation loop
     // in the program under test then fails its allocation and dies instead of exhausting the
     // machine); far above anything these small inputs need
